@@ -30,7 +30,7 @@ RULE_HOME = {
     'W1': 'w_api', 'W2': 'w_api', 'W3': 'w_api', 'W4': 'w_api', 'W5': 'w_api', 'W6': 'w_api',
     'G2': 'g_lex', 'G4': 'g_lex',
     'S1': 's_state', 'S2': 's_state', 'S3': 's_state', 'S4': 's_state', 'S5': 's_state', 'S6': 's_state', 'S7': 's_state',
-    'P1': 'p_panic', 'X4': 'x_emit', 'X13': 'x_macro', 'X14': 'x_macro', 'X15': 'x_macro', 'X16': 'x_macro', 'X17': 'x_range', 'X18': 'x_split', 'X19': 'x_split', 'G6t': 'g_alt', 'G16': 'g_args', 'G17': 'g_args', 'G18': 'g_args', 'G19': 'g_tail', 'G20': 'g_tail', 'P3': 'p_errors',
+    'P1': 'p_panic', 'X4': 'x_emit', 'X13': 'x_macro', 'X14': 'x_macro', 'X15': 'x_macro', 'X16': 'x_macro', 'X17': 'x_range', 'X18': 'x_split', 'X19': 'x_split', 'G6t': 'g_alt', 'G16': 'g_args', 'G17': 'g_args', 'G18': 'g_args', 'G22': 'g_args', 'G19': 'g_tail', 'G20': 'g_tail', 'P3': 'p_errors',
 }
 
 
@@ -280,7 +280,7 @@ PROPS = {
         'needs_mir': True,
     },
     'C12': {
-        'rules': [rule('S3'), rule('G0'), rule('G12'), rule('G14'), rule('G5'), rule('G6t')],
+        'rules': [rule('S3'), rule('G0'), rule('G12'), rule('G14'), rule('G5'), rule('G6t'), rule('G22')],
         'explanation': 'A directive parsed as trivia leaves the directive stack and the keyword-version stack as it found them on every '
                        'path: forward dataflow over the MIR CFG of all 8310 bodies of the parser crate computes the net effect at each '
                        'return; every body is neutral except the two directives whose meaning is the effect (S3). Every grammar-level '
@@ -344,7 +344,7 @@ PROPS = {
         'needs_mir': True,
     },
     'C06': {
-        'rules': [rule('X4', drop=['strip-']), rule('X1'), rule('G10'), rule('G15'), rule('G17', keep=['string-literal:']), rule('G18')],
+        'rules': [rule('X4', drop=['strip-']), rule('X1'), rule('G10'), rule('G15'), rule('G17', keep=['string-literal:']), rule('G18'), rule('G22')],
         'explanation': 'Restricted to the directive-free part of the pp type graph (SourceDescription::{Comment, StringLiteral, NotDirective, '
                        'EscapedIdentifier} and their trivia) every leaf is emitted exactly once: each variant has an emitting arm (X4b), an '
                        'arm that pushes its whole node either skips the node, or suppresses exactly the descendants that would emit '
